@@ -954,6 +954,159 @@ fn judge_e2e(
     None
 }
 
+/// Second end-to-end read, through the API that callers generating single types use
+/// (`DerivesRegistry::flatten_recursive_derives` + `FlatDerivesRegistry::resolve*`): what derives
+/// does the flattened registry resolve for each probe type, and for a path nobody registered?
+pub fn flat_read(b: &Builders, u: &Universe) -> Result<(BTreeMap<String, Sets>, Sets), String> {
+    let flat = b
+        .derives
+        .clone()
+        .flatten_recursive_derives(&u.reg)
+        .map_err(|e| format!("flatten_recursive_derives: {e}"))?;
+    let mut m = BTreeMap::new();
+    for t in u.reg.types.iter() {
+        if !refmodel::is_generated_kind(&t.ty) {
+            continue;
+        }
+        let d = flat
+            .resolve_derives_for_type(&t.ty)
+            .map_err(|e| format!("resolve_derives_for_type({}): {e}", t.id))?;
+        let sets: Sets = (set_of(d.derives()), set_of(d.attributes()));
+        let p = refmodel::path_text(&t.ty);
+        if let Some(prev) = m.get(&p) {
+            if *prev != sets {
+                return Err(format!("two entries with path {p} resolve to different derives: {prev:?} vs {sets:?}"));
+            }
+        }
+        m.insert(p, sets);
+    }
+    let nobody = flat.resolve(&crate::model::parse_type_path("never::registered::by::anybody::Anywhere"));
+    Ok((m, (set_of(nobody.derives()), set_of(nobody.attributes()))))
+}
+
+fn judge_flat(
+    got: &Result<(BTreeMap<String, Sets>, Sets), String>,
+    want: &BTreeMap<String, (Sets, Sets)>,
+    global: &Sets,
+) -> Option<String> {
+    let (got, nobody) = match got {
+        Ok(g) => g,
+        Err(e) => return Some(format!("flattening failed on the probe registry: {e}")),
+    };
+    if nobody != global {
+        return Some(format!(
+            "FlatDerivesRegistry::resolve for a path nothing was registered for gives {nobody:?}, the global registrations are {global:?}"
+        ));
+    }
+    for (p, (lo, hi)) in want {
+        let Some((d, a)) = got.get(p) else {
+            return Some(format!("no flat resolution for probe type {p}"));
+        };
+        if !(lo.0.is_subset(d) && d.is_subset(&hi.0)) {
+            return Some(format!(
+                "flat derives for {p}: got {d:?}, property requires at least {:?} and at most {:?}",
+                lo.0, hi.0
+            ));
+        }
+        if !(lo.1.is_subset(a) && a.is_subset(&hi.1)) {
+            return Some(format!(
+                "flat attributes for {p}: got {a:?}, property requires at least {:?} and at most {:?}",
+                lo.1, hi.1
+            ));
+        }
+    }
+    None
+}
+
+/// The `Derives` value itself is a public accumulator (`new`, `from_iter`, `insert_derive`,
+/// `insert_attribute`, `extend`, `extend_from`, `clone`): a seeded call sequence over a small pool of
+/// values against two ordered sets; read back through `derives()`, `attributes()` and the rendering.
+/// Returns (number of calls, violation).
+pub fn derives_value_history(u: &Universe, seed: u64) -> (u64, Option<String>) {
+    use scale_typegen::typegen::settings::derives::Derives;
+    let mut rng = Rng::new(mix(seed, tag("derives-value"), 0));
+    let n_vals = 2 + rng.usize_below(2);
+    let mut vals: Vec<Derives> = (0..n_vals).map(|_| Derives::new()).collect();
+    let mut model: Vec<Sets> = vec![Default::default(); n_vals];
+    let key_d = |s: &String| nospace(&tokens_of(&parse_path(s)));
+    let key_a = |s: &String| nospace(&tokens_of(&crate::model::parse_attr(s)));
+    let n_ops = 1 + rng.usize_below(10);
+    let mut log = vec![];
+    for _ in 0..n_ops {
+        let i = rng.usize_below(n_vals);
+        match rng.usize_below(7) {
+            0 | 1 if !u.derives.is_empty() => {
+                let d = rng.pick(&u.derives).clone();
+                vals[i].insert_derive(parse_path(&d));
+                model[i].0.insert(key_d(&d));
+                log.push(format!("v{i}.insert_derive({d})"));
+            }
+            2 if !u.attrs.is_empty() => {
+                let a = rng.pick(&u.attrs).clone();
+                vals[i].insert_attribute(crate::model::parse_attr(&a));
+                model[i].1.insert(key_a(&a));
+                log.push(format!("v{i}.insert_attribute({a})"));
+            }
+            3 => {
+                let ds = batch(&mut rng, &u.derives, true);
+                vals[i].extend(ds.iter().map(|s| parse_path(s)));
+                model[i].0.extend(ds.iter().map(key_d));
+                log.push(format!("v{i}.extend({ds:?})"));
+            }
+            4 => {
+                let j = rng.usize_below(n_vals);
+                let other = vals[j].clone();
+                let other_m = model[j].clone();
+                vals[i].extend_from(other);
+                model[i].0.extend(other_m.0);
+                model[i].1.extend(other_m.1);
+                log.push(format!("v{i}.extend_from(v{j}.clone())"));
+            }
+            5 => {
+                let ds = batch(&mut rng, &u.derives, true);
+                vals[i] = ds.iter().map(|s| parse_path(s)).collect::<Derives>();
+                model[i] = (ds.iter().map(key_d).collect(), BTreeSet::new());
+                log.push(format!("v{i} = from_iter({ds:?})"));
+            }
+            _ => {
+                let j = rng.usize_below(n_vals);
+                vals[i] = vals[j].clone();
+                model[i] = model[j].clone();
+                log.push(format!("v{i} = v{j}.clone()"));
+            }
+        }
+    }
+    for i in 0..n_vals {
+        let got: Sets = (set_of(vals[i].derives()), set_of(vals[i].attributes()));
+        if got != model[i] {
+            return (
+                n_ops as u64,
+                Some(format!("Derives value v{i} after [{}]: derives()/attributes() give {got:?}, the calls amount to {:?}", log.join("; "), model[i])),
+            );
+        }
+        // rendering: every member exactly once
+        let v = &vals[i];
+        let text = quote::quote!( #v pub struct Probe; ).to_string();
+        match observe::item_attrs(&text) {
+            Ok(items) if items.len() == 1 => {
+                let d: Vec<String> = items[0].derives.iter().map(|s| nospace(s)).collect();
+                let a: Vec<String> = items[0].attrs.iter().map(|s| nospace(s)).collect();
+                let ds: BTreeSet<String> = d.iter().cloned().collect();
+                let as_: BTreeSet<String> = a.iter().cloned().collect();
+                if ds != model[i].0 || as_ != model[i].1 || d.len() != ds.len() || a.len() != as_.len() {
+                    return (
+                        n_ops as u64,
+                        Some(format!("Derives value v{i} after [{}] renders derives {d:?} attributes {a:?}, the calls amount to {:?}", log.join("; "), model[i])),
+                    );
+                }
+            }
+            Ok(items) => return (n_ops as u64, Some(format!("rendering of a Derives value gives {} items", items.len()))),
+            Err(e) => return (n_ops as u64, Some(format!("rendering of Derives value v{i} after [{}] does not parse: {e}", log.join("; ")))),
+        }
+    }
+    (n_ops as u64, None)
+}
+
 // ---------------------------------------------------------------------------
 // C11 reads
 // ---------------------------------------------------------------------------
@@ -1118,6 +1271,8 @@ pub struct Stats {
     pub expected_kinds: BTreeMap<String, u64>,
     pub both_ways: u64,
     pub e2e_reads: u64,
+    pub flat_reads: u64,
+    pub derives_value_calls: u64,
     pub e2e_items_with_recursive: u64,
     pub reads: u64,
     pub c11_ok: u64,
@@ -1326,6 +1481,20 @@ pub fn run_history(u: &Universe, hist: &[HOp], prop: Prop, perm_seed: u64) -> Hi
                 fail(&mut violation, "generated-derives-differ", format!("after op {i}: {d}"));
                 break;
             }
+            // the same question asked of the flattened registry (the API used when single types
+            // are generated by hand)
+            stats.flat_reads += 1;
+            let flat = match entropy::catch(|| flat_read(&b, u)) {
+                Ok(f) => f,
+                Err(p) => Err(format!("panic: {p}")),
+            };
+            if let Ok((f, _)) = &flat {
+                log.push(format!("flat{i} {:016x}", Digest::of_str(&format!("{f:?}"))));
+            }
+            if let Some(d) = judge_flat(&flat, &want, &real.global) {
+                fail(&mut violation, "flat-derives-differ", format!("after op {i}: {d}"));
+                break;
+            }
             // refinement at the output level: the history-built settings must generate exactly
             // what the model's settings, registered once each in canonical order, generate
             // (this is where a stale parameter mapping of an overwritten rule would show)
@@ -1366,6 +1535,17 @@ pub fn run_history(u: &Universe, hist: &[HOp], prop: Prop, perm_seed: u64) -> Hi
                     break;
                 }
             }
+        }
+    }
+    if violation.is_none() && prop == Prop::C16 {
+        match entropy::catch(|| derives_value_history(u, perm_seed)) {
+            Ok((n, v)) => {
+                stats.derives_value_calls += n;
+                if let Some(d) = v {
+                    fail(&mut violation, "derives-value-differs-from-model", d);
+                }
+            }
+            Err(p) => fail(&mut violation, "builder-panics", format!("Derives value history panicked: {p}")),
         }
     }
     // order / repetition independence: a second instance gets the derive and attribute
@@ -1781,6 +1961,8 @@ pub fn check(ctx: &Ctx, prop: Prop) -> i32 {
         }
         agg.both_ways += s.both_ways;
         agg.e2e_reads += s.e2e_reads;
+        agg.flat_reads += s.flat_reads;
+        agg.derives_value_calls += s.derives_value_calls;
         agg.e2e_items_with_recursive += s.e2e_items_with_recursive;
         agg.reads += s.reads;
         agg.c11_ok += s.c11_ok;
@@ -1893,6 +2075,8 @@ pub fn check(ctx: &Ctx, prop: Prop) -> i32 {
             "path_registered_specifically_and_recursively": agg.both_ways,
             "full_readbacks_compared_with_model": agg.reads,
             "end_to_end_reads (flatten+generate+parse)": agg.e2e_reads,
+            "flat_registry_reads (flatten_recursive_derives + resolve_derives_for_type per probe type + resolve of an unregistered path)": agg.flat_reads,
+            "calls_on_Derives_values (insert_derive/insert_attribute/extend/extend_from/from_iter/clone vs ordered sets)": agg.derives_value_calls,
             "generated_items_carrying_path_or_recursive_derives": agg.e2e_items_with_recursive,
             "history_vs_canonical_settings_generations_compared": agg.canonical_comparisons,
         });
